@@ -690,4 +690,26 @@ Proof.
   rewrite ip_sumF_sumn, sp_A22_length. reflexivity.
 Qed.
 
+(** complex data (zgbtrs on a real matrix): a complex coefficient vector zr + i zi that solves the collocation system
+    C (zr + i zi) = ur + i ui - componentwise, because C is real - is the pair of the real interpolants of the real
+    and imaginary parts of the data (uniqueness from the checked inverse); with [ip_interp1d_exact] both parts of the
+    complex spline take the data values at the interpolation points *)
+Theorem ip_interp1d_complex knots degree periodic cubic xs A Ainv ur ui cr ci (zr zi : nat -> F) :
+  let nb := ip_nbasis F K knots degree periodic cubic in
+  ip_colloc F K nb knots degree periodic cubic xs = SpOk A -> ip_inverse_ok F K nb A Ainv = true ->
+  ip_interp1d F K knots degree periodic cubic xs ur = SpOk cr ->
+  ip_interp1d F K knots degree periodic cubic xs ui = SpOk ci ->
+  (forall i, (i < nb)%nat -> isum nb (fun k => mget A i k * zr k) = nth i ur 0) ->
+  (forall i, (i < nb)%nat -> isum nb (fun k => mget A i k * zi k) = nth i ui 0) ->
+  forall k, (k < nb)%nat -> zr k = nth k cr 0 /\ zi k = nth k ci 0.
+Proof.
+  cbv zeta. intros EA Hinv Hr Hi Sr Si.
+  destruct (ip_interp1d_system _ _ _ _ _ _ _ Hr) as [A1 [E1 Cr]]. rewrite EA in E1. inversion E1. subst A1.
+  destruct (ip_interp1d_system _ _ _ _ _ _ _ Hi) as [A2 [E2 Ci]]. rewrite EA in E2. inversion E2. subst A2.
+  destruct (ip_inverse_ok_spec _ _ _ Hinv) as [HL _].
+  intros k Hk. split.
+  - apply (ip_unique_left _ A Ainv zr (fun k => nth k cr 0) HL); [|exact Hk]. intros i Hi'. rewrite (Sr i Hi'), (Cr i Hi'). reflexivity.
+  - apply (ip_unique_left _ A Ainv zi (fun k => nth k ci 0) HL); [|exact Hk]. intros i Hi'. rewrite (Si i Hi'), (Ci i Hi'). reflexivity.
+Qed.
+
 End IpTheory.
